@@ -18,6 +18,12 @@ ENGINES = [
         "kind_free_text": "nightly MIR of the identifier bit walkers translated to bit-vector SMT with a symbolic registry length; one-step inductive obligations decided by z3, cross-checked with cvc5; counterexamples re-solved for a small length and replayed by a Kani harness",
     },
     {
+        "name": "E3c glue",
+        "path": "/verif/smt/glue.py",
+        "serves_properties": ["C13", "C01"],
+        "kind_free_text": "assume-guarantee check of the World-level glue over nightly MIR: callees replaced by contracts established by the Kani harness groups, ghost counters rows/active/len, obligations decided by z3 and cvc5; counterexamples replayed by native public-API scenarios",
+    },
+    {
         "name": "E2 models",
         "path": "/verif/models",
         "serves_properties": [],
@@ -239,6 +245,13 @@ PLAN["C05"]["smt"] = ["bitwalk"]
 PLAN["C05"]["quick"] += ["bitwalk_q_len8", "bitwalk_q_len9"]
 PLAN["C16"]["thorough"] += ["rsrc_t_clone"]
 
+GLUE_TEXT = " E3c: the World-level glue (World::insert/extend/remove/clear, Entry::add/remove) is checked compositionally over its MIR: callees replaced by the contracts the harness groups above establish, `stored rows == active slots == len` and the specified new count proved for every path (z3 + cvc5)."
+for _pid in ("C13", "C01"):
+    PLAN[_pid]["smt"] = ["glue"]
+    PLAN[_pid]["level_text"] += GLUE_TEXT
+    PLAN[_pid]["level_note"] += " E3c trusts its MIR-subset translator and the stated callee contracts."
+    PLAN[_pid]["outside"] = [o for o in PLAN[_pid]["outside"] if "World-level glue" not in o] + ["World-level glue other than through E3c's counter abstraction (values and identities at World level are argued from the archetype-level harnesses)"]
+
 for _p in PLAN.values():
     _p.setdefault("level", "model_checking")
     _p.setdefault("stubs", [])
@@ -308,7 +321,7 @@ def run_smt(engine, repo, tier, scratch):
     import sys
 
     verif = os.path.dirname(os.path.dirname(os.path.abspath(__file__)))
-    script = {"tables": "tables.py", "bitwalk": "bitwalk.py"}[engine]
+    script = {"tables": "tables.py", "bitwalk": "bitwalk.py", "glue": "glue.py"}[engine]
     p = subprocess.run(["python3-vt", os.path.join(verif, "smt", script), repo, tier], stdout=subprocess.PIPE, stderr=subprocess.PIPE, text=True)
     try:
         r = json.loads(p.stdout)
@@ -331,7 +344,22 @@ def run_smt(engine, repo, tier, scratch):
                 ck = {"cimm": "imm", "cmut": "mut", "coimm": "oimm", "comut": "omut"}.get(m.get("c"))
                 if vk and ck:
                     harness = "stagepair_q_c_%s_then_%s" % (ck, vk)
-            if harness:
+            if engine == "glue":
+                # replay against the real code: public-API scenarios (one per glue function and path)
+                # with an audit of len / contains / stored rows after every operation, run natively
+                import shutil
+
+                w = os.path.join(scratch, "w")
+                shutil.copy(os.path.join(verif, "harness", "native", "glue_replay.rs"), os.path.join(w, "tests", "glue_replay.rs"))
+                env = dict(os.environ)
+                env["CARGO_NET_OFFLINE"] = "true"
+                env.pop("RUSTFLAGS", None)
+                t = subprocess.run(["cargo", "test", "--offline", "--test", "glue_replay"], cwd=w, env=env, stdout=subprocess.PIPE, stderr=subprocess.STDOUT, text=True)
+                ran = "test result:" in t.stdout
+                v["reproduced"] = ran and "test result: FAILED" in t.stdout
+                v["replay_detail"] = [l for l in t.stdout.splitlines() if "panicked" in l or "test result" in l or l.startswith("test ")][:20]
+                v["replay_harness"] = "harness/native/glue_replay.rs (cargo test --test glue_replay)"
+            elif harness:
                 # replay against the real code: rustc resolves brood's real impls for that pair of
                 # tasks and the harness compares the resulting stage structure with the reference
                 data, out, _ = runner.run_kani(scratch, [harness], 2, 600, "smt-replay-%d" % i)
